@@ -39,6 +39,7 @@ pub static SPELL_SHORT: std::sync::atomic::AtomicU64 = std::sync::atomic::Atomic
 pub static SPELL_EQUALS: std::sync::atomic::AtomicU64 = std::sync::atomic::AtomicU64::new(0);
 pub static SPELL_POSITIONAL: std::sync::atomic::AtomicU64 = std::sync::atomic::AtomicU64::new(0);
 pub static SPELL_PLAIN: std::sync::atomic::AtomicU64 = std::sync::atomic::AtomicU64::new(0);
+pub static SPELL_DOTSLASH: std::sync::atomic::AtomicU64 = std::sync::atomic::AtomicU64::new(0);
 
 /// The same command line in another of the spellings the argument grammar documents: short flags
 /// (`-i X`), `--flag=value`, and the positional form of `--input`. Which spelling is used is a
@@ -87,6 +88,14 @@ pub fn respell(args: &[String]) -> Vec<String> {
     if let Some((long, short)) = valued.iter().find(|(l, _)| l == a) {
       match args.get(i + 1) {
         Some(v) if !v.starts_with('-') && !v.is_empty() => {
+          // a relative path may just as well be written with a leading `./`
+          let is_path = matches!(*long, "--input" | "--output" | "--content" | "--base-directory");
+          let v = &if is_path && !v.starts_with('.') && !v.starts_with('/') && next() % 4 == 0 {
+            SPELL_DOTSLASH.fetch_add(1, Relaxed);
+            format!("./{v}")
+          } else {
+            v.clone()
+          };
           match next() % 4 {
             0 if !short.is_empty() => {
               SPELL_SHORT.fetch_add(1, Relaxed);
